@@ -36,6 +36,23 @@ func runC14(c *Ctx) {
 			cmpFns = append(cmpFns, f)
 		}
 	}
+	// several candidates (helper predicates on two configurations): the comparison is the one that reads the most
+	// fields of both operands
+	if len(cmpFns) > 1 {
+		best, bestN := cmpFns[0], -1
+		for _, f := range cmpFns {
+			n := 0
+			AllInstrs(f, func(in ssa.Instruction) {
+				if _, ok := in.(*ssa.FieldAddr); ok {
+					n++
+				}
+			})
+			if n > bestN {
+				best, bestN = f, n
+			}
+		}
+		cmpFns = []*ssa.Function{best}
+	}
 	requireN("CfgCompare", cmpFns, 1, 1)
 	cmp := cmpFns[0]
 	c.Touch(cmp)
@@ -139,11 +156,11 @@ func runC14(c *Ctx) {
 		rAll := c.Rule("compare-no-shortcut", "every return of the constant true in the configuration comparison is reached only after, on every path, each compared field was loaded from both operands (no fast path that declares two configurations equal on partial evidence)")
 		var trueRets []ssa.Instruction
 		for _, ret := range returnsOf(cmp) {
-			if b, ok := ConstBool(ret.Results[0]); ok && b {
+			if b, ok := ConstBool(RetVals(ret)[0]); ok && b {
 				trueRets = append(trueRets, ret)
 			}
 			// phi of constants
-			if ph, ok := ret.Results[0].(*ssa.Phi); ok {
+			if ph, ok := RetVals(ret)[0].(*ssa.Phi); ok {
 				for _, e := range ph.Edges {
 					if b, okb := ConstBool(e); okb && b {
 						trueRets = append(trueRets, ret)
@@ -350,6 +367,31 @@ func runC14(c *Ctx) {
 				}
 			}
 			c.Check(okEq, r3, "equal:no-action", p.InstrPos(cmpCall), "an unchanged process is put in no set", "a process whose configuration compares equal is still scheduled for a change (its running instance would be disturbed)")
+			// "no action" is decided by the comparison alone: no path from the found edge reaches the next
+			// iteration without an insertion unless it went through the comparison
+			{
+				stop := func(in ssa.Instruction) bool {
+					if in == ssa.Instruction(cmpCall) {
+						return true
+					}
+					_, isIns := isMapInsert(in)
+					return isIns
+				}
+				short := false
+				hdr := lk.ifi.Block()
+				if lp := InnermostLoopOf(lk.ifi); lp != nil {
+					hdr = lp.Header
+				}
+				for in := range Reach([]Pt{{foundB, 0}}, stop, nil) {
+					if in.Block() == hdr && in != ssa.Instruction(lk.ifi) && !stop(in) {
+						short = true
+					}
+					if _, isRet := in.(*ssa.Return); isRet {
+						short = true
+					}
+				}
+				c.Check(!short, r3, "equal:only-by-comparison", p.InstrPos(cmpCall), "a process is left alone only when the comparison says so", "a process present in both projects can be treated as unchanged without consulting the configuration comparison (a shortcut such as equal source text): a change that only shows after rendering - project variables, shell - is not applied and not reported")
+			}
 			c.Check(okNe, r3, "updated:on-difference", p.InstrPos(cmpCall), "a changed process is recorded as updated", "a process whose configuration differs is not recorded as updated")
 			// the comparison is current.Compare(&new)
 			args := ArgsOf(&cmpCall.Call)
@@ -504,6 +546,64 @@ func runC14(c *Ctx) {
 	}
 	c.Floor(r3, 12, "classification obligations")
 
+	// ------------------------------------------------------------------ (3b)
+	{
+		rImm := c.Rule("probe-config-not-rewritten-at-run-time", "fields of the probe configuration (health.Probe, HttpProbe, ExecProbe) are stored only by the defaulting functions (reached from Probe.ValidateAndSetDefaults), by copies into fresh objects and by the template renderer: the stored project configuration shares these objects with the running probers, so a store at run time makes an untouched process compare as changed on the next update")
+		vsd := p.TryMethod("health", "Probe", "ValidateAndSetDefaults")
+		probeTypes := map[string]bool{"Probe": true, "HttpProbe": true, "ExecProbe": true}
+		allowed := map[*ssa.Function]bool{}
+		if vsd != nil {
+			work := []*ssa.Function{vsd}
+			for len(work) > 0 {
+				f := work[0]
+				work = work[1:]
+				if allowed[f] {
+					continue
+				}
+				allowed[f] = true
+				AllInstrs(f, func(in ssa.Instruction) {
+					if call, ok := in.(*ssa.Call); ok {
+						if sc := call.Call.StaticCallee(); sc != nil && len(sc.Blocks) > 0 && pkgOfFunc(sc) != nil && pkgOfFunc(sc).Name() == "health" {
+							work = append(work, sc)
+						}
+					}
+				})
+			}
+		}
+		n := 0
+		for _, f := range p.Funcs {
+			pk := pkgOfFunc(f)
+			if pk == nil || pk.Name() == "templater" || pk.Name() == "loader" {
+				continue
+			}
+			AllInstrs(f, func(in ssa.Instruction) {
+				st, ok := in.(*ssa.Store)
+				if !ok {
+					return
+				}
+				fa, ok := st.Addr.(*ssa.FieldAddr)
+				if !ok {
+					return
+				}
+				pt, ok := fa.X.Type().(*types.Pointer)
+				if !ok {
+					return
+				}
+				nt, ok := pt.Elem().(*types.Named)
+				if !ok || nt.Obj().Pkg() == nil || nt.Obj().Pkg().Name() != "health" || !probeTypes[nt.Obj().Name()] {
+					return
+				}
+				n++
+				if al, isAl := PathOf(fa).Base.(*ssa.Alloc); isAl && len(PathOf(fa).Fields) == 1 {
+					_ = al
+					return // a copy under construction
+				}
+				c.Check(allowed[f], rImm, "store:"+p.FuncKey(f)+":"+derefStruct(fa.X.Type()).Field(fa.Field).Name(), p.InstrPos(in), "stored by a defaulting function", "a probe configuration field is rewritten outside the defaulting functions (e.g. a getter that normalises and writes back): after the first launch the stored configuration differs from what a load produces, so every update restarts this untouched process and reports it as updated")
+			})
+		}
+		c.Check(n >= 5, rImm, "floor:probe-field-stores", "", "probe field stores found", "expected the defaulting stores of the probe configuration")
+	}
+
 	// ------------------------------------------------------------------ (4)
 	r4 := c.Rule("replace-order", "in the process-update operation the removal of the old instance (which stops it without restart and awaits its completion) precedes the add-and-run of the new configuration on every path, and the added value is the updated configuration")
 	up := s.apiMethod("UpdateProcess")
@@ -590,7 +690,7 @@ func runC14(c *Ctx) {
 				if isOneOf(in, adds) || isOneOf(in, removes) {
 					errRet = false
 				}
-				if ret, ok := in.(*ssa.Return); ok && IsNilConst(ret.Results[0]) {
+				if ret, ok := in.(*ssa.Return); ok && IsNilConst(RetVals(ret)[0]) {
 					errRet = false
 				}
 			}
